@@ -250,11 +250,11 @@ type rec struct {
 }
 
 type model struct {
-	limit int
-	s     [nAcc]uint64
-	may   [nAcc]map[uint64][]*rec // upper set: everything the pool may hold, by nonce (all variants)
-	must  [nAcc]map[uint64]bool   // lower set: nonces for which the pool is obliged to hold one tx
-	adm   []*rec                  // admin txs the pool may hold, acceptance order
+	limit   int
+	s       [nAcc]uint64
+	may     [nAcc]map[uint64][]*rec // upper set: everything the pool may hold, by nonce (all variants)
+	must    [nAcc]map[uint64]bool   // lower set: nonces for which the pool is obliged to hold one tx
+	adm     []*rec                  // admin txs the pool may hold, acceptance order
 	admMust map[*rec]bool
 	// leakBudget: number of accepted txs since the last flush that the pool may legitimately have
 	// displaced from its queues while accepting them or later (same account+nonce variants, and txs
